@@ -13,7 +13,7 @@ struct LitForm {
 constexpr int W_GT2 = 100;
 constexpr int NLITNAMED = 16;   // forms 0..15 are NAMED_ sites (lit.cpp)
 constexpr int NLITALL = 30;     // forms 16..29 are scoped sites (scoped.cpp)
-constexpr int NLITNAMEDV = 4;   // forms 30..33 are NAMED_ variadic spellings (lit.cpp)
+constexpr int NLITNAMEDV = 9;   // forms 30..33 are NAMED_ variadic spellings, 34..38 the spellings of run-time bounds (lit.cpp)
 
 inline const LitForm* lit_forms() {
   static const LitForm f[] = {
@@ -54,6 +54,12 @@ inline const LitForm* lit_forms() {
     /*31*/ {F_f, 2, 2, {M_WILD, 0}, {M_WILD, 0}, W_OFF, X_OFF, true, ".f(_)"},               // NAMED_REQUIRE_CALL_V(m, f(_), .TIMES(2) .RETURN(...))
     /*32*/ {F_f, 0, INF, {M_LE, 1}, {M_WILD, 0}, W_OFF, X_OFF, true, ".f(le(1))"},           // NAMED_ALLOW_CALL_V(m, f(le(1)), .RETURN(...))
     /*33*/ {F_f, 0, 0, {M_VALUE, 4}, {M_WILD, 0}, W_OFF, X_OFF, false, ".f(4)"},             // NAMED_FORBID_CALL_V(m, f(4))
+    // every documented spelling of a run-time bound (the data-driven sites only write RT_TIMES(lo, hi))
+    /*34*/ {F_f, 2, 2, {M_WILD, 0}, {M_WILD, 0}, W_OFF, X_OFF, true, ".f(_)"},               // .RT_TIMES(n)
+    /*35*/ {F_f, 1, INF, {M_WILD, 0}, {M_WILD, 0}, W_OFF, X_OFF, true, ".f(_)"},             // .RT_TIMES(AT_LEAST(n))
+    /*36*/ {F_f, 0, 2, {M_WILD, 0}, {M_WILD, 0}, W_OFF, X_OFF, true, ".f(_)"},               // .RT_TIMES(AT_MOST(n))
+    /*37*/ {F_f, 1, 1, {M_GE, 2}, {M_WILD, 0}, W_OFF, X_OFF, true, ".f(ge(2))"},             // .RT_TIMES(1)
+    /*38*/ {F_v, 3, 3, {M_WILD, 0}, {M_WILD, 0}, W_OFF, X_OFF, false, ".v(_)"},              // NAMED_REQUIRE_CALL_V(m, v(_), .RT_TIMES(n))
   };
   return f;
 }
